@@ -38,27 +38,33 @@ class IntervalInterp:
             if isinstance(x, tuple) and x and x[0] == 'ptr': return x
         return None
 
-    def _run(self, f, args, depth):
+    def _run(self, f, args, depth, mem=None):
+        """per-path results of f: list of return intervals; with mem (the caller's local memory cells, for out-parameters) list of (return interval, memory cells at the return)"""
         if depth > 4: raise IUnmodelled('interval domain: call depth')
         out = []
-        self._from(f, args, {}, 0, None, out, depth)
+        env = dict(mem) if mem else {}
+        self._from(f, args, env, 0, None, out, depth)
+        if mem is None: return [r for r, _ in out]
         return out
 
-    def _from(self, f, args, env, bb, prev, out, depth):
+    def _from(self, f, args, env, bb, prev, out, depth, start=0):
         steps = 0
         while True:
             steps += 1
             if steps > 10000: raise IUnmodelled('interval domain: loop in %s' % f.name)
             blk = f.blocks[bb]
-            new = {}
-            for i in blk:
-                if i.op != 'phi': break
-                for v, pb in i.d['incoming']:
-                    if pb == prev: new[i.id] = self._val(f, env, args, v)
-            env.update(new)
+            if start == 0:
+                new = {}
+                for i in blk:
+                    if i.op != 'phi': break
+                    for v, pb in i.d['incoming']:
+                        if pb == prev: new[i.id] = self._val(f, env, args, v)
+                env.update(new)
             nxt = None
-            for i in blk:
+            for idx_, i in enumerate(blk):
+                if idx_ < start: continue
                 if i.op == 'phi' or self.P.is_dbg(i): continue
+                if i.op == 'call' and (self.P.call_target(i)[0] == 'direct' and self.P.call_target(i)[1].startswith('llvm.lifetime')): continue
                 op = i.op; w = i.d['bits']
                 V = lambda k: self._val(f, env, args, i.ops[k])
                 M = (1 << w) - 1 if w else 0
@@ -158,7 +164,19 @@ class IntervalInterp:
                                 self._from(f, args, dict(env), s, bb, out, depth)
                             return
                 elif op == 'ret':
-                    out.append(V(0) if i.ops else (0, 0)); return
+                    out.append((V(0) if i.ops else (0, 0), {k_: v_ for k_, v_ in env.items() if isinstance(k_, tuple) and k_[0] == 'm'})); return
+                elif op == 'alloca':
+                    env[i.id] = ('ptr', ('loc', f.name, i.id, depth), 0)
+                elif op == 'bitcast':
+                    env[i.id] = self._val(f, env, args, i.ops[0])
+                elif op == 'store':
+                    b = self._val_ptr(f, env, args, i.ops[1])
+                    if b is None or not (isinstance(b[1], tuple) and b[1][0] == 'loc'): raise IUnmodelled('interval domain: store at %s' % i.loc)
+                    env[('m', b[1], b[2])] = V(0)
+                elif op == 'load' and (lambda b_: b_ is not None and isinstance(b_[1], tuple) and b_[1][0] == 'loc')(self._val_ptr(f, env, args, i.ops[0])):
+                    b = self._val_ptr(f, env, args, i.ops[0])
+                    if ('m', b[1], b[2]) not in env: raise IUnmodelled('interval domain: load of an unwritten local at %s' % i.loc)
+                    env[i.id] = env[('m', b[1], b[2])]
                 elif op == 'getelementptr' and not i.d['var_steps']:
                     b = self._val_ptr(f, env, args, i.ops[0])
                     env[i.id] = ('ptr', b[1], b[2] + i.d['const_off']) if b else None
@@ -170,7 +188,16 @@ class IntervalInterp:
                 elif op == 'call':
                     t = self.P.call_target(i)
                     if t[0] == 'direct' and t[1] in self.P.defined:
-                        r = self._run(self.P.defined[t[1]], [V(k) for k in range(len(i.ops))], depth + 1)
+                        cargs = [V(k) for k in range(len(i.ops))]
+                        if any(isinstance(a_, tuple) and a_ and a_[0] == 'ptr' and isinstance(a_[1], tuple) and a_[1][0] == 'loc' for a_ in cargs):
+                            # the callee receives the address of a local (an out-parameter): one continuation per path of the callee, each with the memory it left
+                            mem_ = {k_: v_ for k_, v_ in env.items() if isinstance(k_, tuple) and k_[0] == 'm'}
+                            res_ = self._run(self.P.defined[t[1]], cargs, depth + 1, mem=mem_)
+                            for (rv_, m_) in res_:
+                                e2 = dict(env); e2.update(m_); e2[i.id] = rv_
+                                self._from(f, args, e2, bb, prev, out, depth, start=idx_ + 1)
+                            return
+                        r = self._run(self.P.defined[t[1]], cargs, depth + 1)
                         env[i.id] = (min(x[0] for x in r), max(x[1] for x in r))
                     else:
                         raise IUnmodelled('interval domain: call to %s at %s' % (t, i.loc))
@@ -178,4 +205,4 @@ class IntervalInterp:
                     raise IUnmodelled('interval domain: opcode %s at %s' % (op, i.loc))
             if nxt is None:
                 raise IUnmodelled('fell off block in %s' % f.name)
-            prev, bb = bb, nxt
+            prev, bb = bb, nxt; start = 0
